@@ -138,6 +138,7 @@ def _make_empty_cog(
         FILETYPE,
         PHOTOMETRIC,
         PLANARCONFIG,
+        TiffFile,
         TiffWriter,
         enumarg,
     )
@@ -170,12 +171,18 @@ def _make_empty_cog(
 
     buf = BytesIO()
 
+    # tifffile wants actual pixels for an uncompressed image that is one tile big:
+    # write the empty header with some codec, fix the compression tag afterwards
+    _hdr_compression = _compression
+    if _compression == COMPRESSION.NONE:
+        _hdr_compression = COMPRESSION.ADOBE_DEFLATE
+
     opts_common = {
         "dtype": dtype,
         "photometric": photometric,
         "planarconfig": planarconfig,
         "predictor": predictor,
-        "compression": _compression,
+        "compression": _hdr_compression,
         "compressionargs": compressionargs,
         "software": False,
         **kw,
@@ -224,8 +231,10 @@ def _make_empty_cog(
         else:
             kw = {**opts_common, "subfiletype": FILETYPE.REDUCEDIMAGE}
 
+        # one empty block per tile, not an endless stream of them: for uncompressed
+        # single tile images tifffile drains the iterator
         tw.write(
-            itertools.repeat(b""),
+            itertools.repeat(b"", meta.num_tiles),
             shape=_sh(im_shape),
             tile=tile,
             **kw,
@@ -242,6 +251,12 @@ def _make_empty_cog(
     meta.overviews = tuple(metas[1:])
 
     tw.close()
+
+    if _hdr_compression != _compression:
+        buf.seek(0)
+        with TiffFile(buf, mode="r+", name=":mem:") as tr:
+            for page in tr.pages:
+                page.tags[259].overwrite(int(_compression))
 
     return meta, buf.getbuffer()
 
@@ -268,7 +283,7 @@ def _cog_block_compressor_yxs(
         except Exception:  # pylint: disable=broad-except
             return b""
 
-    return bytes(block.data)
+    return block.tobytes()
 
 
 def _cog_block_compressor_syx(
@@ -304,7 +319,7 @@ def _cog_block_compressor_syx(
         except Exception:  # pylint: disable=broad-except
             return b""
 
-    return bytes(block.data)
+    return block.tobytes()
 
 
 def _mk_tile_compressor(
@@ -315,7 +330,8 @@ def _mk_tile_compressor(
     from tifffile import TIFF
 
     tile_shape = meta.chunks
-    encoder = TIFF.COMPRESSORS[meta.compression]
+    # COMPRESSION.NONE: tifffile maps it to an identity function returning the array
+    encoder = TIFF.COMPRESSORS[meta.compression] if meta.compression != 1 else None
 
     predictor = None
     if meta.predictor != 1:
@@ -637,6 +653,13 @@ def save_cog_with_dask(
     )
 
     parts_base = kw.pop("parts_base", None)
+
+    # tiles are encoded from pixels as they are in memory: header is always in native
+    # byte order, and for bool tifffile declares 1 bit per sample
+    if xx.dtype == "bool":
+        xx = xx.astype("uint8", keep_attrs=True)
+    elif not xx.dtype.isnative:
+        xx = xx.astype(xx.dtype.newbyteorder("="), keep_attrs=True)
 
     # normalize compression and remove GDAL compat options from kw
     predictor, compression, compressionargs = _norm_compression_tifffile(
